@@ -43,7 +43,10 @@ ASSUMPTIONS = [
 ]
 MUST_HIT = ["edit:identity", "edit:add", "edit:delete", "edit:rename", "edit:byte_position", "edit:bit_length",
             "edit:coded_value", "edit:semantic", "edit:data_type", "edit:linked_dop", "edit:dop_modified",
+            "edit:coded_values", "edit:constant_value", "edit:default_value",
             "dop-modified-used", "dop-modified-physical-type", "src:metrics",
+            "nrc:alternative-added", "nrc:alternative-removed", "nrc:value-changed", "som-pe:NRC:coded_values",
+            "pe:CC:byte_position", "pe:NRC:byte_position", "pe:VAL:byte_position", "pe:PC:byte_position", "pe:RES:byte_position", "pe:MR:byte_position", "pe:SYS:byte_position", "pe:LK:byte_position", "pe:TK:byte_position", "pe:TS:byte_position", "pe:CC:semantic", "pe:NRC:semantic", "pe:VAL:semantic", "pe:PC:semantic", "pe:RES:semantic", "pe:MR:semantic", "pe:SYS:semantic", "pe:LK:semantic", "pe:TK:semantic", "pe:TS:semantic", "pe:CC:bit_length", "pe:NRC:bit_length", "pe:RES:bit_length", "pe:MR:bit_length", "pe:CC:coded_value", "pe:NRC:coded_values", "pe:CC:data_type", "pe:NRC:data_type", "pe:VAL:linked_dop", "pe:PC:linked_dop", "pe:SYS:linked_dop", "pe:LK:linked_dop", "pe:PC:constant_value", "pe:VAL:default_value",
             "metrics:zero-after-nonzero:services", "metrics:zero-after-nonzero:dops", "metrics:zero-after-nonzero:comparams",
             "metrics:nonzero-after-zero:services", "metrics:nonzero-after-zero:dops", "metrics:nonzero-after-zero:comparams",
             "metrics:order:reversed", "metrics:order:subset", "metrics:order:permuted", "metrics:via:list", "metrics:via:compare",
@@ -54,8 +57,7 @@ MUST_HIT = ["edit:identity", "edit:add", "edit:delete", "edit:rename", "edit:byt
 
 SOMERSAULT = "examples/somersault.pdx"
 EMPTY = {"new": [], "deleted": [], "renamed": [], "changed": []}
-FIELD = {"byte_position": "pos", "bit_length": "bits", "coded_value": "value", "semantic": "semantic",
-         "data_type": "type", "linked_dop": "dop"}
+FIELD = {k: v[0] for k, v in M.ATTR_EDITS.items()}
 
 
 def _repo() -> Path:
@@ -132,6 +134,10 @@ def _observe(sd):
 def _norm(x):
     if isinstance(x, str) and re.fullmatch(r"0x[0-9A-Fa-f]+", x):
         return int(x, 16)
+    if isinstance(x, str) and re.fullmatch(r"\[[-0-9, ]*\]", x):       # str() of a list of integers
+        return [int(v) for v in x.strip("[]").split(",") if v.strip()]
+    if isinstance(x, str) and re.fullmatch(r"-?[0-9]+", x):
+        return int(x)
     return x
 
 
@@ -230,7 +236,10 @@ def plan_generated(desc, edit) -> Plan:
     if k in FIELD:
         p = M._msg(svc, edit["role"])["params"][edit["param"]]
         pl.detail = (p[FIELD[k]], edit["new"])
-        pl.classes |= {f"role:{edit['role'][0]}", f"param:{p['kind']}"}
+        pl.classes |= {f"role:{edit['role'][0]}", f"param:{p['kind']}", f"pe:{p['kind']}:{k}"}
+        if k == "coded_values":
+            o, n = len(p["values"]), len(edit["new"])
+            pl.classes.add("nrc:alternative-added" if n > o else "nrc:alternative-removed" if n < o else "nrc:value-changed")
         if edit["role"][0] == "request" and pl.prefix_old[pl.layers[li]][name] != pl.prefix_new[pl.layers[li]][name]:
             pl.classes.add("request-prefix-changed")
         if k == "byte_position" and (p["pos"] is None or edit["new"] is None):
@@ -291,7 +300,7 @@ def plan_somersault(edit) -> Plan:
             ov = M._sn(M.find_by_id(old, "DATA-OBJECT-PROP", ov))
             nv = M._sn(M.find_by_id(old, "DATA-OBJECT-PROP", nv))
         pl.detail = (ov, nv)
-        pl.classes |= {f"role:{edit['role'][0]}", f"param:{info['kind']}"}
+        pl.classes |= {f"role:{edit['role'][0]}", f"param:{info['kind']}", f"som-pe:{info['kind']}:{k}"}
         if len(affected_ids) > 1:
             pl.classes.add("shared-message")
     n_aff = 0
@@ -627,49 +636,102 @@ def replay(case) -> list:
 def _strategies():
     from hypothesis import strategies as st
 
-    def cc(name, pos, value, bits, typ, sem):
-        return {"kind": "CC", "name": name, "pos": pos, "bits": bits, "value": value, "type": typ, "semantic": sem}
+    def cc(name, value, bits, typ, sem):
+        return {"kind": "CC", "name": name, "pos": None, "bits": bits, "value": value, "type": typ, "semantic": sem}
 
-    def draw_params(draw, head, avail, n_extra, contiguous_head=False):
+    def draw_extra(draw, k, role, avail, tables, prev):
+        """one further parameter (or a TABLE-KEY / TABLE-STRUCT pair) of a type allowed in this kind of message"""
+        ident = [d["name"] for d in avail if M._identical(d)]
+        menu = ["CC", "VAL", "RES", "SYS", "LK"] + (["VALD", "PC", "PC"] if ident else []) + \
+               (["TKTS", "TKTS"] if tables else []) + (["MR", "MR"] if role != "request" else []) + \
+               (["NRC", "NRC", "NRC"] if role == "neg" else [])
+        t = draw(st.sampled_from(menu))
+        sem = draw(st.sampled_from(M.SEMANTICS))
+        if t == "PC" and role == "request" and all(q["kind"] in ("CC", "PC") for q in prev):
+            t = "VALD"          # a PHYS-CONST there would belong to the constant request prefix
+        dop = lambda: draw(st.sampled_from([d["name"] for d in avail]))  # noqa: E731
+        if t == "CC":
+            b = draw(st.sampled_from([8, 8, 16]))
+            return [cc(f"c{k}", draw(st.integers(0, (1 << (b - 1)) - 1)), b, draw(st.sampled_from(M.INT_TYPES)), sem)]
+        if t == "NRC":
+            b = draw(st.sampled_from([8, 8, 16]))
+            vs = draw(st.lists(st.integers(0, 0x7F), min_size=1, max_size=3, unique=True))
+            if len(vs) == 1 and draw(st.booleans()):
+                vs = vs + [(vs[0] + 0x11) % 0x80]
+            return [{"kind": "NRC", "name": f"n{k}", "pos": None, "bits": b, "values": vs,
+                     "type": draw(st.sampled_from(M.INT_TYPES)), "semantic": sem}]
+        if t == "VAL":
+            return [{"kind": "VAL", "name": f"v{k}", "pos": None, "dop": dop(), "semantic": sem}]
+        if t == "VALD":
+            return [{"kind": "VAL", "name": f"v{k}", "pos": None, "dop": draw(st.sampled_from(ident)),
+                     "default": draw(st.integers(0, 0x7F)), "semantic": sem}]
+        if t == "PC":
+            return [{"kind": "PC", "name": f"p{k}", "pos": None, "dop": draw(st.sampled_from(ident)),
+                     "value": draw(st.integers(0, 0x7F)), "semantic": sem}]
+        if t == "RES":
+            return [{"kind": "RES", "name": f"r{k}", "pos": None, "bits": draw(st.sampled_from([8, 8, 16])), "semantic": sem}]
+        if t == "MR":
+            return [{"kind": "MR", "name": f"m{k}", "pos": None, "bits": draw(st.sampled_from([8, 8, 16])),
+                     "rq_pos": draw(st.integers(0, 2)), "semantic": sem}]
+        if t == "SYS":
+            return [{"kind": "SYS", "name": f"y{k}", "pos": None, "dop": dop(),
+                     "sysparam": draw(st.sampled_from(M.SYSPARAMS)), "semantic": sem}]
+        if t == "LK":
+            return [{"kind": "LK", "name": f"l{k}", "pos": None, "dop": dop(), "semantic": sem}]
+        tab = draw(st.sampled_from([tb["name"] for tb in tables]))
+        return [{"kind": "TK", "name": f"k{k}", "pos": None, "table": tab, "semantic": sem},
+                {"kind": "TS", "name": f"t{k}", "pos": None, "key": f"k{k}", "semantic": draw(st.sampled_from(M.SEMANTICS))}]
+
+    def draw_params(draw, head, role, avail, tables, n_extra, contiguous_head=False):
         """head: [(name, value, bits)] leading constants; returns the parameter list with a drawn layout"""
-        raw = [cc(n, None, v, b, draw(st.sampled_from(M.INT_TYPES)), draw(st.sampled_from(M.SEMANTICS)))
-               for n, v, b in head]
+        raw = [cc(n, v, b, draw(st.sampled_from(M.INT_TYPES)), draw(st.sampled_from(M.SEMANTICS))) for n, v, b in head]
         for k in range(n_extra):
-            if draw(st.booleans()):
-                b = draw(st.sampled_from([8, 8, 16]))
-                raw.append(cc(f"c{k}", None, draw(st.integers(0, (1 << (b - 1)) - 1)), b,
-                              draw(st.sampled_from(M.INT_TYPES)), draw(st.sampled_from(M.SEMANTICS))))
-            else:
-                raw.append({"kind": "VAL", "name": f"v{k}", "pos": None,
-                            "dop": draw(st.sampled_from([d["name"] for d in avail])),
-                            "semantic": draw(st.sampled_from(M.SEMANTICS))})
+            raw += draw_extra(draw, k, role, avail, tables, raw)
+        tmp = {"layers": [{"name": "x", "parent": None, "dops": avail, "services": [], "comparam_refs": [],
+                           "table": None}]}
         bits = {d["name"]: d["bits"] for d in avail}
+        tbits = {tb["name"]: bits[tb["key_dop"]] for tb in tables}
         cursor = 0
         for k, p in enumerate(raw):
             # the identifying constants of a request are contiguous from byte 0 in the generated base
-            gap = 0 if (contiguous_head and k < len(head)) else draw(st.sampled_from([0, 0, 0, 1, 2]))
+            gap = 0 if (contiguous_head and k < len(head)) or p["kind"] == "TS" else draw(st.sampled_from([0, 0, 0, 1, 2]))
             start = cursor + gap
-            p["pos"] = None if (gap == 0 and draw(st.integers(0, 3)) == 0) else start
-            cursor = start + (p["bits"] if p["kind"] == "CC" else bits[p["dop"]]) // 8
+            p["pos"] = None if (gap == 0 and (p["kind"] == "TS" or draw(st.integers(0, 3)) == 0)) else start
+            if p["kind"] in ("CC", "NRC", "RES", "MR"):
+                n = p["bits"]
+            elif p["kind"] == "TK":
+                n = tbits[p["table"]]
+            elif p["kind"] == "TS":
+                n = tbits[next(q["table"] for q in raw if q["kind"] == "TK" and q["name"] == p["key"])]
+            else:
+                n = bits[p["dop"]]
+            cursor = start + n // 8
+        del tmp
         return raw
 
-    def draw_service(draw, avail, name, used_px):
+    def draw_service(draw, avail, tables, name, used_px):
         sid = draw(st.sampled_from([0x10, 0x22, 0x22, 0x2E, 0x31]))
         sub_bits = draw(st.sampled_from([8, 8, 16]))
         sub = draw(st.integers(0, 6))
         rq = {"name": f"rq_{name}",
-              "params": draw_params(draw, [("sid", sid, 8), ("sub", sub, sub_bits)], avail, draw(st.integers(0, 2)),
-                                    contiguous_head=True)}
-        tmp = {"layers": [{"name": "x", "parent": None, "dops": avail, "services": [], "comparam_refs": []}]}
-        while (False, M.const_prefix(tmp, 0, rq, False)) in used_px or (True, M.const_prefix(tmp, 0, rq, True)) in used_px:
+              "params": draw_params(draw, [("sid", sid, 8), ("sub", sub, sub_bits)], "request", avail, tables,
+                                    draw(st.integers(0, 3)), contiguous_head=True)}
+        tmp = {"layers": [{"name": "x", "parent": None, "dops": avail, "services": [], "comparam_refs": [],
+                           "table": None}]}
+        # the prefix only depends on the leading constants, which need neither DOPs nor tables
+        lead = {"name": "x", "params": [q for q in rq["params"][:2]]}
+        while (False, M.const_prefix(tmp, 0, lead, False)) in used_px or (True, M.const_prefix(tmp, 0, lead, True)) in used_px:
             rq["params"][1]["value"] = (rq["params"][1]["value"] + 1) % (1 << (sub_bits - 1))
-        used_px.add((False, M.const_prefix(tmp, 0, rq, False)))
-        used_px.add((True, M.const_prefix(tmp, 0, rq, True)))
+        # further leading constants (extras of kind CC directly behind the head) extend the prefix: keep the
+        # prefix of the head unique, which makes every extension unique as well under the "cut" reading; the
+        # full reading is checked by well_formed() when the case is planned
+        used_px.add((False, M.const_prefix(tmp, 0, lead, False)))
+        used_px.add((True, M.const_prefix(tmp, 0, lead, True)))
         pos = [{"name": f"pr_{name}_{i}",
-                "params": draw_params(draw, [("sid", sid + 0x40, 8)], avail, draw(st.integers(0, 2)))}
+                "params": draw_params(draw, [("sid", sid + 0x40, 8)], "pos", avail, tables, draw(st.integers(0, 3)))}
                for i in range(draw(st.integers(0, 2)))]
         neg = [{"name": f"nr_{name}_{i}",
-                "params": draw_params(draw, [("sid", 0x7F, 8), ("rq", sid, 8)], avail, draw(st.integers(0, 1)))}
+                "params": draw_params(draw, [("sid", 0x7F, 8), ("rq", sid, 8)], "neg", avail, tables, draw(st.integers(0, 3)))}
                for i in range(draw(st.integers(0, 2)))]
         return {"name": name, "uid": name, "semantic": draw(st.sampled_from([None, "FUNCTION", "SESSION"])),
                 "request": rq, "pos": pos, "neg": neg}
@@ -681,35 +743,50 @@ def _strategies():
         used_px = set()
         layers = []
         sc = 0
+
+        def avail_of(li, parent, dops, table):
+            pa = layers[0] if parent == 0 else None
+            return ((pa["dops"] if pa else []) + dops,
+                    ([pa["table"]] if pa and pa.get("table") else []) + ([table] if table else []))
+
         for li in range(nl):
             parent = None if li == 0 else draw(st.sampled_from([None, 0, 0]))
             nd = draw(st.integers(2, 4))
             dops = [{"name": f"d{li}_{k}", "bits": draw(st.sampled_from([8, 8, 16])),
                      "type": draw(st.sampled_from(M.INT_TYPES))} for k in range(nd)]
             dops[1]["bits"] = dops[0]["bits"]
-            for d in dops:
+            for d in dops[1:]:          # the first DOP of a layer stays IDENTICAL (table key, constants, defaults)
                 if draw(st.integers(0, 3)) == 0:
                     d["compu"] = {"offset": draw(st.integers(-2, 2)), "factor": draw(st.sampled_from([1, 2, 3]))}
                     d["phys"] = draw(st.sampled_from([d["type"], "A_FLOAT64"]))
-            avail = (layers[0]["dops"] if parent == 0 else []) + dops
+            table = {"name": f"tb{li}", "key_dop": dops[0]["name"]} if draw(st.integers(0, 3)) > 0 else None
+            avail, tables = avail_of(li, parent, dops, table)
             ns = draw(st.integers(1, 5 if li == 0 else 3))
             services = []
             for _ in range(ns):
-                services.append(draw_service(draw, avail, f"s{sc}", used_px))
+                services.append(draw_service(draw, avail, tables, f"s{sc}", used_px))
                 sc += 1
             cps = [[i, str(draw(st.integers(0, 9)))] for i in range(ncp) if draw(st.booleans())]
             layers.append({"name": f"L{li}", "parent": parent, "dops": dops, "services": services,
-                           "comparam_refs": cps})
+                           "comparam_refs": cps, "table": table})
         desc = {"layers": layers, "n_comparams": ncp}
-        kind = draw(st.sampled_from([k for k in M.EDIT_KINDS if k != "identity"] + ["identity"]))
+        if not M.well_formed(desc):
+            # rare: constants drawn behind the head make two full request prefixes equal; drop those extras
+            for l in layers:
+                for sv in l["services"]:
+                    sv["request"]["params"] = sv["request"]["params"][:2]
+        kind = draw(st.sampled_from(["add", "delete", "rename", "dop_modified"] + ["attr"] * 8 + ["identity"]))
         li = draw(st.integers(0, nl - 1))
         lay = layers[li]
+        edit = None
         if kind == "identity":
             edit = {"kind": "identity"}
         elif kind == "add":
-            avail = (layers[0]["dops"] if lay["parent"] == 0 else []) + lay["dops"]
-            edit = {"kind": "add", "layer": li, "at": draw(st.integers(0, len(lay["services"]))),
-                    "service": draw_service(draw, avail, f"s{sc}", used_px)}
+            avail, tables = avail_of(li, lay["parent"], lay["dops"], lay.get("table"))
+            new_svc = draw_service(draw, avail, tables, f"s{sc}", used_px)
+            edit = {"kind": "add", "layer": li, "at": draw(st.integers(0, len(lay["services"]))), "service": new_svc}
+            if not M.well_formed(M.apply_edit(desc, edit)):
+                new_svc["request"]["params"] = new_svc["request"]["params"][:2]
         elif kind == "delete":
             edit = {"kind": "delete", "layer": li, "service": draw(st.integers(0, len(lay["services"]) - 1))}
         elif kind == "dop_modified":
@@ -717,21 +794,42 @@ def _strategies():
             every = [(a, b) for a, l in enumerate(layers) for b in range(len(l["dops"]))]
             used = [(a, b) for a, b in every if any(M.dop_users(desc, layers[a]["dops"][b]["name"]).values())]
             pool = used if (used and draw(st.integers(0, 3)) > 0) else every
-            a, b = pool[draw(st.integers(0, len(pool) - 1))]
-            mods = M.dop_modifications(layers[a]["dops"][b])
-            edit = {"kind": "dop_modified", "layer": a, "dop": b, "new": mods[draw(st.integers(0, len(mods) - 1))]}
+            start = draw(st.integers(0, len(pool) - 1))
+            for a, b in pool[start:] + pool[:start] + every:
+                mods = []
+                for m in M.dop_modifications(layers[a]["dops"][b]):
+                    e = {"kind": "dop_modified", "layer": a, "dop": b, "new": m}
+                    if M.well_formed(M.apply_edit(desc, e)):     # constants, defaults and table keys need IDENTICAL
+                        mods.append(e)
+                if mods:
+                    edit = mods[draw(st.integers(0, len(mods) - 1))]
+                    break
         elif kind == "rename":
             si = draw(st.integers(0, len(lay["services"]) - 1))
             edit = {"kind": "rename", "layer": li, "service": si, "name": "r_" + lay["services"][si]["name"],
                     "uid": "r_" + lay["services"][si]["uid"]}
-        else:
-            locs = [(a, b, r, c) for a, l in enumerate(layers) for b, s in enumerate(l["services"])
-                    for r in M.roles(s) for c in range(len(M._msg(s, r)["params"]))]
-            start = draw(st.integers(0, len(locs) - 1))
-            edit = None
-            for k2 in (kind, "semantic"):
-                for loc in locs[start:] + locs[:start]:
-                    cands = M.attribute_candidates(desc, loc[0], loc[1], loc[2], loc[3], k2)
+        if edit is None:
+            # one attribute of one parameter: first the (parameter type, attribute) combination, then the place
+            combos = {}
+            for a, l in enumerate(layers):
+                for b, sv in enumerate(l["services"]):
+                    for r in M.roles(sv):
+                        for c, prm in enumerate(M._msg(sv, r)["params"]):
+                            for k2 in M.ATTR_EDITS:
+                                if M.edit_applies(prm, k2):
+                                    combos.setdefault((prm["kind"], k2), []).append((a, b, r, c))
+            keys = sorted(combos)
+            first = draw(st.integers(0, len(keys) - 1))
+            for key in keys[first:] + keys[:first]:
+                locs = combos[key]
+                start = draw(st.integers(0, len(locs) - 1))
+                for loc in (locs[start:] + locs[:start])[:6]:
+                    cands = M.attribute_candidates(desc, loc[0], loc[1], loc[2], loc[3], key[1])
+                    if cands and key[1] == "coded_values":
+                        cur = len(M._msg(layers[loc[0]]["services"][loc[1]], loc[2])["params"][loc[3]]["values"])
+                        want = draw(st.sampled_from([0, 1, -1]))      # value changed / alternative added / removed
+                        sel = [c for c in cands if (len(c["new"]) > cur) - (len(c["new"]) < cur) == want]
+                        cands = sel or cands
                     if cands:
                         edit = cands[draw(st.integers(0, len(cands) - 1))]
                         break
@@ -769,6 +867,83 @@ def _metrics_strategy():
     return cases()
 
 
+def rich_description():
+    """a fixed description in which every parameter kind occurs in every kind of message it may occur in"""
+    def P(kind, name, pos, sem=None, **kw):
+        return dict({"kind": kind, "name": name, "pos": pos, "semantic": sem}, **kw)
+
+    def cc(name, pos, value, bits=8, typ="A_UINT32", sem=None):
+        return P("CC", name, pos, sem, bits=bits, value=value, type=typ)
+
+    d = lambda n, b, t="A_UINT32", **kw: dict({"name": n, "bits": b, "type": t}, **kw)  # noqa: E731
+    s0 = {"name": "s0", "uid": "s0", "semantic": "FUNCTION",
+          "request": {"name": "rq_s0", "params": [
+              cc("sid", 0, 0x22, sem="SERVICE-ID"), cc("sub", 1, 1), P("VAL", "v0", 2, dop="d1"),
+              P("PC", "p0", 3, dop="d0", value=5), P("RES", "r0", None, bits=8), P("SYS", "y0", 6, dop="d1", sysparam="TIMESTAMP"),
+              P("LK", "l0", None, dop="d0"), P("VAL", "v1", 9, "DATA", dop="d0", default=3),
+              P("TK", "k0", 11, table="tb0"), P("TS", "t0", None, key="k0")]},
+          "pos": [{"name": "pr_s0_0", "params": [
+              cc("sid", 0, 0x62), P("MR", "m0", 1, bits=8, rq_pos=1), P("VAL", "v0", None, dop="d0", default=7),
+              P("PC", "p0", 4, dop="d1", value=9), P("RES", "r0", 5, bits=16), P("SYS", "y0", None, dop="d3", sysparam="DAY"),
+              P("LK", "l0", 9, dop="d1"), P("TK", "k0", None, table="tb0"), P("TS", "t0", None, key="k0"),
+              cc("c0", 14, 0x11, 16, "A_INT32")]},
+              {"name": "pr_s0_1", "params": [cc("sid", 0, 0x62), P("VAL", "v0", 1, dop="d2")]}],
+          "neg": [{"name": "nr_s0_0", "params": [
+              cc("sid", 0, 0x7F), cc("rq", 1, 0x22), P("NRC", "n0", 2, bits=8, values=[0x10, 0x11, 0x12], type="A_UINT32"),
+              P("MR", "m0", None, bits=16, rq_pos=0), P("VAL", "v0", 6, dop="d3"), P("PC", "p0", None, dop="d0", value=1),
+              P("RES", "r0", 9, bits=8), P("SYS", "y0", None, dop="d0", sysparam="YEAR"), P("LK", "l0", 12, dop="d1"),
+              P("TK", "k0", 14, table="tb0"), P("TS", "t0", None, key="k0")]},
+              {"name": "nr_s0_1", "params": [cc("sid", 0, 0x7F), cc("rq", 1, 0x22),
+                                             P("NRC", "n0", None, "DATA", bits=16, values=[0x31], type="A_INT32")]}]}
+    s1 = {"name": "s1", "uid": "s1", "semantic": None,
+          "request": {"name": "rq_s1", "params": [cc("sid", 0, 0x22), cc("sub", 1, 2, 16), P("VAL", "v0", None, dop="d2")]},
+          "pos": [{"name": "pr_s1_0", "params": [cc("sid", 0, 0x62), cc("c0", 2, 5)]}],
+          "neg": [{"name": "nr_s1_0", "params": [cc("sid", 0, 0x7F), cc("rq", 1, 0x22),
+                                                  P("NRC", "n0", 2, bits=8, values=[1, 2], type="A_UINT32")]}]}
+    s2 = {"name": "s2", "uid": "s2", "semantic": "SESSION",
+          "request": {"name": "rq_s2", "params": [cc("sid", 0, 0x31), cc("sub", 1, 1), P("VAL", "v0", 3, dop="e0"),
+                                                  P("TK", "k0", 4, table="tb0"), P("TS", "t0", None, key="k0")]},
+          "pos": [], "neg": [{"name": "nr_s2_0", "params": [cc("sid", 0, 0x7F), cc("rq", 1, 0x31),
+                                                            P("NRC", "n0", 2, bits=8, values=[0x22], type="A_UINT32"),
+                                                            P("VAL", "v0", 3, dop="d1")]}]}
+    return {"n_comparams": 3, "layers": [
+        {"name": "L0", "parent": None, "dops": [d("d0", 8), d("d1", 8), d("d2", 16), d("d3", 8, "A_INT32", compu={"offset": 1, "factor": 2}, phys="A_FLOAT64")],
+         "services": [s0, s1], "comparam_refs": [[0, "5"], [1, "7"]], "table": {"name": "tb0", "key_dop": "d0"}},
+        {"name": "L1", "parent": 0, "dops": [d("e0", 8), d("e1", 8, "A_INT32")], "services": [s2],
+         "comparam_refs": [[1, "9"], [2, "1"]], "table": {"name": "tb1", "key_dop": "e0"}}]}
+
+
+def rich_cases():
+    """every edit of the fixed description: add / delete / rename of every service, every in-place modification of
+    every DOP, every attribute of every parameter with up to five new values"""
+    desc = rich_description()
+    if not M.well_formed(desc):
+        raise RuntimeError("the fixed description is outside the envelope")
+    out = [{"kind": "identity"}]
+    for li, lay in enumerate(desc["layers"]):
+        for si, sv in enumerate(lay["services"]):
+            out.append({"kind": "delete", "layer": li, "service": si})
+            out.append({"kind": "rename", "layer": li, "service": si, "name": "r_" + sv["name"], "uid": "r_" + sv["uid"]})
+            for r in M.roles(sv):
+                for pi in range(len(M._msg(sv, r)["params"])):
+                    for k in M.ATTR_EDITS:
+                        c = M.attribute_candidates(desc, li, si, r, pi, k)
+                        step = max(1, len(c) // 5)
+                        out += c[::step][:5] + (c[-1:] if len(c) > 5 else [])
+        for di, dd in enumerate(lay["dops"]):
+            for m in M.dop_modifications(dd):
+                e = {"kind": "dop_modified", "layer": li, "dop": di, "new": m}
+                if M.well_formed(M.apply_edit(desc, e)):
+                    out.append(e)
+    new_svc = {"name": "s9", "uid": "s9", "semantic": None,
+               "request": {"name": "rq_s9", "params": [dict(desc["layers"][0]["services"][1]["request"]["params"][0], value=0x2E),
+                                                       dict(desc["layers"][0]["services"][1]["request"]["params"][1])]},
+               "pos": [], "neg": []}
+    out.append({"kind": "add", "layer": 0, "at": 1, "service": new_svc})
+    out.append({"kind": "add", "layer": 1, "at": 0, "service": new_svc})
+    return [{"src": "gen", "desc": desc, "edit": e, "detailed": i % 2 == 0} for i, e in enumerate(out)]
+
+
 def somersault_cases():
     return [{"src": "somersault", "edit": e, "detailed": (i % 2 == 0)}
             for i, e in enumerate(M.pdx_enumerate_edits(_base_pdx()))]
@@ -778,12 +953,13 @@ def somersault_cases():
 # runner interface
 # ---------------------------------------------------------------------------
 N_SOM = 8
+N_RICH = 4
 
 
 def shards(tier):
     nh = 8 if tier == "quick" else 16
     return [("hyp", i) for i in range(nh)] + [("som", i) for i in range(N_SOM)] + \
-           [("met", i) for i in range(4 if tier == "quick" else 8)]
+           [("met", i) for i in range(4 if tier == "quick" else 8)] + [("rich", i) for i in range(N_RICH)]
 
 
 def _filter_known(fails, kf, res):
@@ -817,6 +993,19 @@ def run_shard(spec, seed, tier):
             "modification of every DOP that is only linked directly by VALUE parameters)")
         return res
 
+    if spec[0] == "rich":
+        cases = rich_cases()
+        mine = [c for i, c in enumerate(cases) if i % N_RICH == spec[1]]
+        for c in mine:
+            fails, classes, nontrivial = evaluate(c)
+            res.note({"edit": c["edit"]}, nontrivial, classes | {"src:rich"}, sample=(c["edit"]["kind"] == "coded_values"))
+            res.failures.extend(_filter_known(fails, kf, res)[:3])
+        res.stages["enumeration"] = len(mine)
+        res.exhaustive_subspaces.append(
+            f"{len(cases)} edits of a fixed description containing every parameter kind in every kind of message: "
+            "add/delete/rename of every service, every in-place DOP modification, every attribute of every parameter "
+            "with up to six new values")
+        return res
     if spec[0] == "met":
         n = 100 if tier == "quick" else 800
 
